@@ -38,10 +38,10 @@ func (c c16Cell) String() string {
 const c16URL = "http://crl.test/c16.crl"
 
 type c16Cast struct {
-	p                  *world.PKI
-	ca, unknownCA      *world.Ident
-	p1, p2, clean      *world.Ident // p1 listed from version 1 on, p2 only from version 2 on
-	pc1, pc2, pcclean  *world.Ident // same serials without CDP (config CRL paths)
+	p                 *world.PKI
+	ca, unknownCA     *world.Ident
+	p1, p2, clean     *world.Ident // p1 listed from version 1 on, p2 only from version 2 on
+	pc1, pc2, pcclean *world.Ident // same serials without CDP (config CRL paths)
 }
 
 func newC16Cast() *c16Cast {
